@@ -1378,3 +1378,32 @@ Proof.
   rewrite (module_renders_file sch tbl cfg m good _ Hnd Hin Hg) in Hout.
   exact (shipped_json sch tbl names He Hall _ Hf ts minimum allowed now g Hb Hev nm cl gr id ex Hcl Hgr Hid Hex Hs out s Hout Hi).
 Qed.
+
+(* ---- sequences of notifications ------------------------------------------------------------------- *)
+
+(* the template value of the record a module builds (the start time is opaque to templates apart from its methods) *)
+Definition tdata_value (sch : schema) (nm : Z -> string) (d : tdata Eval.gstatus) : value :=
+  data_of sch nm (td_cluster d) (td_group d) (td_id d) (td_extras d) (td_result d).
+
+Definition evaluator_reply (g : Eval.gstatus) : Prop :=
+  exists ts minimum allowed now g0, Eval.eval_group ts minimum allowed now = Eval.Ok g0 /\ g = Eval.filter_view g0.
+
+(* every notification of a sequence handed to a configured module renders, on data that carries the configured
+   extras and that notification's incident - however many notifications the module has sent before *)
+Theorem notified_module_renders : forall sch (tbl : list (string * tmpl)) cfg,
+  embed_ok sch = true -> forallb (fun p => typecheck sch (snd p) burrow_facts) tbl = true ->
+  NoDup (map mc_name cfg) ->
+  forall m good, In m cfg -> (good = true -> mc_send_close m = true) -> assoc (mc_file m good) tbl <> None ->
+  forall extras sent (l : list (notification Eval.gstatus)) nm k n d,
+    Forall (fun n => evaluator_reply (nt_status n)) l ->
+    nth_error l k = Some n -> nth_error (run_notifications (mkMstate extras sent) l) k = Some d ->
+    d = notify_data extras n /\
+    exists out, module_renders sch tbl cfg (mc_name m) good (tdata_value sch nm d) = Ok out.
+Proof.
+  intros sch tbl cfg He Hall Hnd m good Hin Hg Hf extras sent l nm k n d Hl Hn Hd.
+  rewrite module_data_offers_configured in Hd. rewrite nth_error_map, Hn in Hd. simpl in Hd. inversion Hd; subst d.
+  split; [reflexivity|].
+  rewrite Forall_forall in Hl. destruct (Hl n (nth_error_In _ _ Hn)) as (ts & mi & al & now & g0 & Hev & Hg0).
+  unfold tdata_value, notify_data. simpl. rewrite Hg0.
+  exact (configured_modules_render sch tbl cfg He Hall Hnd m good Hin Hg Hf ts mi al now g0 Hev nm _ _ _ _).
+Qed.
